@@ -14,7 +14,7 @@ E4 = "E4 schedule/fault enumerator"
 CHECKS = {
     "C01": dict(engine=E1, cat="exploration", ref="§4 C01",
                 technique="exhaustive small-scope enumeration of cost tables x switching costs against brute force over all K^T sequences (interpreted and JIT kernel)",
-                text="Every cost table over small integer alphabets up to T*K<=8 (+5x2; thorough T*K<=12) x every switching cost in the menu is run through the real kernel, interpreted and JIT-compiled, and compared exactly with brute force over all K^T sequences. Bounded-exhaustive: complete below the bound, silent above it.",
+                text="Every cost table over small integer alphabets ({0,1,3}, {-2,0,3}, {0,1,1e15}) up to T*K<=8 (+5x2; thorough T*K<=12) x every switching cost in the menu (scalars incl. 0.5 in three numeric types, every vector over {0,2}^T and {0,1,5}^T), float64 C/F-ordered and int64/float32/int32 tables, through the real kernel interpreted and JIT-compiled, compared exactly with brute force over all K^T sequences; a one-hot family up to T=10 (thorough 14) against a forward DP; and call sequences with the same K and varying T in one process. Bounded-exhaustive: complete below the bound, silent above it.",
                 note="trusted: NumPy integer-valued float arithmetic is exact; the brute-force oracle; inputs above the size bound and non-integer costs are not covered here (C09/C07 cover real-valued tables by objective comparison)"),
     "C09": dict(engine=E2, cat="model_checking", ref="§3.2, §4 C09",
                 technique="explicit-state model of the main loop (fresh-state transition table) + conformance replay of every trace against the real fit_stacked_data under scripted initial labelling / donor draw / pool",
@@ -29,11 +29,11 @@ CHECKS = {
                 text="All operation sequences up to depth 6 (thorough 8) over assign/copy/repopulate/statistics/optimise/relabel on real objects: partition invariant on every state produced, every earlier live state unchanged by every operation, deep copies independent under mutation of every mutable component; and the same at every phase boundary of every E2 run.",
                 note="trusted: the digest covers every field of ModelState/ClusterParameters/UserArguments listed in seams.py; a new mutable field would need adding"),
     "C10": dict(engine=E1, cat="exploration", ref="§4 C10",
-                technique="complete enumeration of (T,W,N) and series-length tuples with injectively numbered bit patterns, compared as uint64",
+                technique="complete enumeration of (T,W,N) and series-length tuples with injectively numbered bit patterns (NaN payloads, all-NaN rows, all-zero series), compared as uint64, plus call sequences in one process",
                 text="Complete over the ranges in the property: all 2952 (T,W,N) triples with distinct bit patterns per cell (NaN payloads, inf, -0.0, denormals), all tuples of 1..6 series lengths for the joint form, split/pad round trip.",
                 note="trusted: NumPy views for bit comparison"),
     "C11": dict(engine=E1, cat="exploration", ref="§4 C11",
-                technique="complete enumeration of n<=150 and all (N,W) with N<=10, W<=14 against definition-level index maps",
+                technique="complete enumeration of n<=150 (ascending, descending and interleaved within one process) and all (N,W) with N<=10, W<=14 against definition-level index maps, plus history independence: every shape used first in a fresh process, all related shapes re-checked",
                 text="The property's quantifier is finite and is enumerated completely: compression round trips and closed-form index for n<=150, class partition for all 140 (N,W).",
                 note="trusted: reference maps written from the definition in refs.py"),
     "C02": dict(engine=E1, cat="exploration", ref="§4 C02",
@@ -131,7 +131,7 @@ def main():
         e["serves_properties"] = [c["property_id"] for c in checks if c["engine"] == e["name"]]
     man = {
         "version": 1,
-        "setup_cmd": "chmod +x /verif/check && /venv/bin/python -c \"import numpy, numba, sklearn\"",
+        "setup_cmd": "chmod +x /verif/check /verif/tools/*.sh /verif/tools/*.py && mkdir -p /verif/replays /verif/evidence && /venv/bin/python -c \"import numpy, numba, sklearn\"",
         "hooks": {
             "guard": "FAST_TICC_VERIF",
             "enable": "no source hooks: the harness substitutes recording/scripted objects at module attributes of the package imported from $VERIF_REPO/src (default /repo/src); ./check exports FAST_TICC_VERIF=1 but nothing in /repo reads it",
